@@ -175,7 +175,9 @@ def posterior(check, prog):
                       'the prior already forbids the parameters' % (
                           cl['name'], 'before the prior is tested' if before
                           else 'on the -inf path'))
-    check.floor('forward-model calls in _lnposterior', len(live), 1)
+    check.need('forward-model calls in _lnposterior', len(live), 1,
+               'P1-posterior-sum', '_lnposterior likelihood call',
+               'the likelihood (forward model) is evaluated on the live path', loc)
     # P1: sum
     v = full[0].value
     ll = calls_in(v, '_lnlike')
